@@ -266,6 +266,16 @@ def gen_pm(rng, tier, cls):
     case.update(batch_first=bf, mask=mask, garbage_free=True)
     # no filler concept here: the whole of x is data (batch-first layout is stored; see to_tensors)
     case["x"] = make_x(rng, N, T, case["rest"], None, case["dtype"])
+    if case["dtype"] != "int64" and rng.random() < 0.4:
+        # what the mask drops is unusable in the first place (mask = isfinite(x)): NaN at every dropped position
+        def nan_like(item):
+            return [nan_like(i) for i in item] if isinstance(item, list) else None
+
+        for n in range(N):
+            for t in range(T):
+                if not mask[n][t]:
+                    case["x"][n][t] = nan_like(case["x"][n][t])
+        case["dropped_are_nan"] = True
     case["lens"] = None
     case["shape"] = [N, T] + case["rest"]
     return case
